@@ -60,6 +60,7 @@ class CohGen:
             class_enum_default=(target == 'matlab'),    # D40 (pybind): default value of the class's own enum type
             typedefs=True,
             serialize_p=0.0,            # probability that a class declares the serialize() marker
+            same_arity_overloads=True,  # (matlab) overloads of equal arity told apart by the type test of a parameter
             twin_signatures=0.2,        # probability that a callable reuses the parameter list of an earlier one
             member_template_p=0.2,      # methods (and, where the target allows, static methods / free functions) with
                                         # their own template parameter and instantiation list
@@ -405,6 +406,20 @@ class CohGen:
                 if f['overloads'] and used_names and r.random() < 0.25:
                     nm = r.choice([n for n, kk in used_names.items() if kk == 'method'] or [nm])
                 a = margs()
+                same_const_as = None
+                if self.target == 'matlab' and f['same_arity_overloads'] and nm in used_names and r.random() < 0.6:
+                    # an overload of the same arity as an existing one, told apart by the type test of one parameter
+                    prev = [m for m in members if m.k == 'Method' and m.name == nm and m.args and
+                            all(x.default is None for x in m.args)]
+                    if prev:
+                        b = r.choice(prev)
+                        i = r.randrange(len(b.args))
+                        other = {'num': ['string', 'bool', 'char'], 'char': ['double', 'bool', 'int'],
+                                 'logical': ['double', 'string', 'size_t']}.get(self._family(b.args[i].type))
+                        if other:
+                            a = tuple(S.Arg(S.T(r.choice(other)) if j == i else x.type, self.lname(), None)
+                                      for j, x in enumerate(b.args))
+                            same_const_as = b.const     # (C++ overload resolution must not depend on the receiver's constness)
                 if f['this_types'] and r.random() < 0.15:
                     # the class itself as parameter type, spelled `This` (by reference, const reference or shared pointer)
                     q = r.choice([(False, '&'), (True, '&'), (False, '*')])
@@ -434,6 +449,8 @@ class CohGen:
                     continue
                 used_names[nm] = 'method' if mt is None else 'templated'
                 const = True if (nm == 'print' and not f['nonconst_print']) else r.random() < 0.6
+                if same_const_as is not None:
+                    const = same_const_as
                 members.append(S.Method(nm, ret, a, const, mt))
             elif k == 'static':
                 nm = self.member_name('static')
@@ -534,13 +551,39 @@ class CohGen:
             ret = S.T(pname)
         return out, ret
 
+    def _family(self, t):
+        """MATLAB-side guard family of a parameter type (values of different families never satisfy each other's test)."""
+        if not t.ns and not t.args:
+            if t.name in ('double', 'int', 'size_t', 'unsigned char', 'Vector', 'Matrix', 'Point2', 'Point3'):
+                return 'num'
+            if t.name in ('char', 'string'):
+                return 'char'
+            if t.name == 'bool':
+                return 'logical'
+        if t.name in ('Vector', 'Matrix', 'Point2', 'Point3'):
+            return 'num'
+        for e in self.enums:
+            if self.enum_type(e) == t.bare():
+                return 'enum'          # (all enums one family: enumeration values are passed as their class)
+        return 'object'                # classes may be related by inheritance: one family
+
+    def _told_apart_by_type(self, a, b):
+        """two parameter lists of equal length without defaults that differ in the guard family of one position"""
+        if self.target != 'matlab' or not self.f['same_arity_overloads'] or len(a) != len(b) or not a:
+            return False
+        if any(x.default is not None for x in tuple(a) + tuple(b)):
+            return False
+        fa, fb = [self._family(x.type) for x in a], [self._family(x.type) for x in b]
+        return any(p != q and 'object' not in (p, q) and 'enum' not in (p, q) for p, q in zip(fa, fb))
+
     def _arity_ok(self, used, members, nm, a, kind):
-        """overloads of one name must have disjoint arity sets (so that dispatch is unambiguous)."""
+        """overloads of one name must have disjoint arity sets (so that dispatch is unambiguous), or - in the MATLAB
+        universe - be told apart by the type test of one parameter."""
         mine = set(range(len(a) - sum(1 for x in a if x.default is not None), len(a) + 1))
         for m in members:
             if m.k == kind and m.name == nm:
                 theirs = set(range(len(m.args) - sum(1 for x in m.args if x.default is not None), len(m.args) + 1))
-                if mine & theirs:
+                if mine & theirs and not self._told_apart_by_type(a, m.args):
                     return False
         if nm in used and used[nm] != kind.lower():
             return False
@@ -627,7 +670,7 @@ class CohGen:
         for g in funcs:
             if g.name == fn.name:
                 theirs = set(range(len(g.args) - sum(1 for x in g.args if x.default is not None), len(g.args) + 1))
-                if mine & theirs:
+                if mine & theirs and not self._told_apart_by_type(fn.args, g.args):
                     return False
         return True
 
